@@ -972,6 +972,40 @@ add("early-08-hh-add-stops-after-six-rows", ["C04"], "heavyhitters",
     "    for row in range(depth):\n        col = fasthash64(key, row) % width\n        if np.all(key_array == lhh[row, col]) and key_lens[row, col] == key_len:",
     "    for row in range(depth):\n        if row >= 6:\n            break\n        col = fasthash64(key, row) % width\n        if np.all(key_array == lhh[row, col]) and key_lens[row, col] == key_len:",
     note="the heavy-hitter add touches only the first six rows")
+add("default-01-linear-add-default-multiplicity-two", ["C01", "C12"], "countmin",
+    "            self.cms, self.buckets, self.width, self.depth, self.uint_maxval, key\n        )\n\n    def add(self, key: bytes, value: int = 1) -> None:",
+    "            self.cms, self.buckets, self.width, self.depth, self.uint_maxval, key\n        )\n\n    def add(self, key: bytes, value: int = 2) -> None:",
+    note="a bare add(key) (and so update(list)) counts every key twice")
+add("default-02-hh-add-default-multiplicity-two", ["C03", "C12"], "heavyhitters",
+    "    def add(self, key: bytes, value: int = 1) -> None:", "    def add(self, key: bytes, value: int = 2) -> None:",
+    note="a bare hh.add(key) counts the key twice")
+add("keyid-07-merge-compares-keys-with-ne", ["C03", "C04"], "heavyhitters",
+    "            keys_match = (np.all(lhh[row, col] == other_lhh[row, col])) and (", "            keys_match = (np.all(lhh[row, col] != other_lhh[row, col])) and (",
+    note="merge treats cells whose keys differ in every byte as holding the same key")
+add("cachekey-05-fresh-sketch-records-one-add", ["C13"], "heavyhitters",
+    "        self.n_added_sort = 0\n", "        self.n_added_sort = 1\n",
+    note="after exactly one add the empty initial cache is taken for current: query() returns nothing")
+add("scan-07-dup-skip-tests-count-one", ["C13"], "heavyhitters",
+    "                if self.candidate_set[key] == 0:", "                if self.candidate_set[key] == 1:",
+    note="only keys already listed with count 1 are (re)evaluated: no key ever enters the candidate set")
+add("mergetree-09-hll-args-from-second-sketch", ["C08"], "helpers",
+    "    elif isinstance(sketch_array[0], HyperLogLog):\n        sketch_type = \"hll\"\n        sketch_args = sketch_array[0].args",
+    "    elif isinstance(sketch_array[0], HyperLogLog):\n        sketch_type = \"hll\"\n        sketch_args = sketch_array[1].args",
+    note="parallel_merging of a single HyperLogLog sketch raises IndexError (only the HLL arm)")
+add("factory-07-num-reserved-zero-taken-for-unset", ["C16"], "countmin",
+    "    elif cms_type == \"log16\":\n        if num_reserved is None:", "    elif cms_type == \"log16\":\n        if not num_reserved:",
+    note="CountMin(..., num_reserved=0) builds a log16 sketch with the default 1023: an attached view decodes differently")
+add("persist-09-linear-table-saved-as-uint16", ["C10"], "countmin",
+    "            args=np.array([self.width, self.depth], np.uint64),\n            n_added_records=self.n_added_records,\n            cms=self.cms,",
+    "            args=np.array([self.width, self.depth], np.uint64),\n            n_added_records=self.n_added_records,\n            cms=self.cms.astype(np.uint16),",
+    note="the linear table is narrowed on save: counters >= 65536 wrap in the file")
+add("persist-10-records-counter-saved-without-slot-1", ["C10"], "countmin",
+    "            args=np.array([self.width, self.depth], np.uint64),\n            n_added_records=self.n_added_records,",
+    "            args=np.array([self.width, self.depth], np.uint64),\n            n_added_records=self.n_added_records[:1],",
+    note="only n_added is saved; np.copyto broadcasts it into both slots on load")
+add("persist-11-hll-registers-restored-with-maximum", ["C10"], "hyperloglog",
+    "            np.copyto(hll.registers, npzfile[\"hll\"])", "            np.maximum(hll.registers, npzfile[\"hll\"][: len(hll.registers)], out=hll.registers)",
+    note="registers restored through np.maximum with a slice (a shorter member is accepted silently)")
 add("E-global-08-rename-kernel-parameters", ALL_PROPS, "*", _rename_kernel_params, None, kind="E",
     note="every parameter of every @njit kernel renamed (call sites are positional)")
 add("E-global-09-rename-private-functions", ALL_PROPS, "*", _rename_private_functions, None, kind="E",
